@@ -300,6 +300,104 @@ Fixpoint run (max : Z) (allow : bool) (l : pl) (ops : list op) : pl :=
   | o :: r => run max allow (fst (step max allow l o)) r
   end.
 
+(* ------------------------------------------------------------------ *)
+(* starting from the cache file (pex.New: loadCache, setAllUntrusted, default
+   connections, DisableTrustedPeers) and the save() -> restart round trip *)
+
+(* one "addr": {Addr, LastSeen, Trusted, HasIncomingPort} member of peers.json /
+   peers.txt, in file order; f_seen = None when LastSeen is neither an integer
+   nor an RFC3339 time *)
+Record fentry := mkF { f_key : str; f_addr : str; f_seen : option Z; f_trusted : bool; f_incoming : bool }.
+
+(* encoding/json into a map: a repeated member name keeps the last value *)
+Definition json_members (es : list fentry) : list (str * fentry) :=
+  fold_left (fun acc e => Conns.aset str_eqb (f_key e) e acc) es [].
+
+(* loadCachedPeersFile, one member: both the key and Addr are validated with
+   allowLocalhost = true and must clean to the same string *)
+Definition load_entry (e : fentry) : option (str * peer) :=
+  match validate_address (f_key e) true with
+  | VReject _ => None
+  | VAccept a =>
+      match f_seen e with
+      | None => None
+      | Some t =>
+          match validate_address (f_addr e) true with
+          | VReject _ => None
+          | VAccept a' => if str_eqb a a' then Some (a, mkPeer t (f_trusted e) (f_incoming e) 0) else None
+          end
+      end
+  end.
+Definition load_file (es : list fentry) : pl :=
+  fold_left (fun acc ke => match load_entry (snd ke) with Some (a, p) => pset a p acc | None => acc end)
+            (json_members es) [].
+
+(* loadCache: the CONFIGURED localhost policy is applied here *)
+Definition cache_filter (allow : bool) (l : pl) : pl :=
+  filter (fun e : str * peer => match validate_address (fst e) allow with VAccept _ => true | VReject _ => false end) l.
+
+Fixpoint str_mem (a : str) (l : list str) : bool :=
+  match l with [] => false | x :: r => str_eqb a x || str_mem a r end.
+(* ... and at most Max peers are kept: which ones is the map iteration's choice
+   (oracle `kept`, checked: exactly Max of the valid ones) *)
+Definition cache_cut (max : Z) (l : pl) (kept : list str) : option pl :=
+  if (0 <? max) && (max <? plen l) then
+    let r := filter (fun e : str * peer => str_mem (fst e) kept) l in
+    if plen r =? max then Some r else None
+  else Some l.
+
+Definition untrust_all (l : pl) : pl :=
+  map (fun e : str * peer => (fst e, mkPeer (p_seen (snd e)) false (p_incoming (snd e)) (p_retry (snd e)))) l.
+
+(* DefaultConnections: AddPeer then setTrusted; any error aborts New *)
+Fixpoint add_defaults (max : Z) (allow : bool) (l : pl) (defaults : list str) (now : Z) : option pl :=
+  match defaults with
+  | [] => Some l
+  | d :: r =>
+      match step max allow l (AddPeer d now None) with
+      | (l1, OOk) =>
+          match step max allow l1 (SetTrusted d) with
+          | (l2, OOk) => add_defaults max allow l2 r now
+          | _ => None
+          end
+      | _ => None
+      end
+  end.
+
+Definition start (max : Z) (allow disable : bool) (es : list fentry) (kept defaults : list str) (now : Z) : option pl :=
+  match cache_cut max (cache_filter allow (load_file es)) kept with
+  | None => None
+  | Some l0 =>
+      match add_defaults max allow (untrust_all l0) defaults now with
+      | None => None
+      | Some l1 => Some (if disable then untrust_all l1 else l1)
+      end
+  end.
+
+(* peerlist.save: peers with RetryTimes > MaxPeerRetryTimes (10) are not written *)
+Definition saved_entries (l : pl) : list fentry :=
+  map (fun e : str * peer => mkF (fst e) (fst e) (Some (p_seen (snd e))) (p_trusted (snd e)) (p_incoming (snd e)))
+      (filter (fun e : str * peer => p_retry (snd e) <=? 10) l).
+
+Inductive xop :=
+| Op (o : op)
+| Restart (kept defaults : list str) (disable : bool) (now : Z).   (* save(), then pex.New on the same directory *)
+
+Definition xstep (max : Z) (allow : bool) (l : pl) (x : xop) : pl * out :=
+  match x with
+  | Op o => step max allow l o
+  | Restart kept defaults disable now =>
+      match start max allow disable (saved_entries l) kept defaults now with
+      | Some l' => (l', ONone)
+      | None => (l, OOracle)
+      end
+  end.
+Fixpoint xrun (max : Z) (allow : bool) (l : pl) (xs : list xop) : pl :=
+  match xs with
+  | [] => l
+  | x :: r => xrun max allow (fst (xstep max allow l x)) r
+  end.
+
 (* ---- comparison helpers for the cases files *)
 Definition peer_eqb (x y : peer) : bool :=
   (p_seen x =? p_seen y) && Bool.eqb (p_trusted x) (p_trusted y)
